@@ -88,7 +88,7 @@ def _add_child_node(
 
     if res is False:
         # node_mapper wants to prevent adding standard attributes?
-        return False
+        return graph_node
 
     # Add standard attributes
     if hasattr(tree_node, "kind"):
